@@ -1,11 +1,10 @@
 SPECIFICATION Spec
 CONSTANTS
-  MaxSteps = 6
+  MaxSteps = 5
   DEV_StaticRegistersCenter = FALSE
   DEV_ReassignKeepsOld = FALSE
-  DEV_RemoveNeedsLanelets = FALSE
+  DEV_RemoveNeedsLanelets = TRUE
 INVARIANT InvInverseStatic
 INVARIANT InvInverseDynamic
 INVARIANT InvRemoveTotal
 INVARIANT InvCentreVsShape
-PROPERTY PropAssignTruth
